@@ -112,6 +112,7 @@ func mutateReq(r *R, q Req, other []Req) Req {
 }
 
 func (c10) Gen(r *R, tier string) any {
+	observeUnknownAPI = false
 	p := &C10Plan{Cfg: genCfg(r), Debug: r.P(0.4)}
 	if r.P(0.4) {
 		// what an outer middleware may have put there: unrelated names, names that
@@ -260,6 +261,7 @@ func agree(a, b Req, names []string) bool {
 func sameReq(a, b Req) bool { return a.String() == b.String() }
 
 func (c10) Exec(plan any, c *Ctx) *Violation {
+	observeUnknownAPI = false
 	p := plan.(*C10Plan)
 	m, err, pan := newMW(p.Cfg)
 	if err != nil || pan != nil {
